@@ -44,6 +44,9 @@ def gen(rng, tier):
         'headers': rng.choice([{}, {'X-K': 'v'}]),
         'shutdown_at': rng.choice([None, None, None, 1, 2, 3]),
         'shutdown_frac': rng.choice([0.1, 0.5, 0.9]),
+        # shutdown() during the back-off wait, or while the attempt that
+        # follows it is in flight
+        'shutdown_phase': rng.choice(['backoff', 'backoff', 'attempt']),
         'second_loss': rng.random() < 0.3,
         'lat': rng.choice([0, 1]),
     }
@@ -97,6 +100,20 @@ def _run(case, cfg, w):
         return srv
     srv = build_server()
 
+    shut = {'at': None, 'n_enter': 0, 'armed': False}
+
+    def maybe_shutdown_in_attempt(client):
+        shut['n_enter'] += 1
+        if shut['armed'] and shut['at'] is None and \
+                shut['n_enter'] - 1 == cfg['shutdown_at']:
+            def go():
+                if shut['at'] is None:
+                    shut['at'] = w.now() - 1_700_000_000.0
+                    rec.add('shutdown_called')
+                    rec.count('fault.shutdown_in_attempt')
+                    w.call(client.shutdown)
+            w.after(0.0, go)
+
     if w.mode == 'async':
         class RecClient(socketio.AsyncClient):
             async def connect(self, *a, **k):
@@ -104,6 +121,7 @@ def _run(case, cfg, w):
                             headers=dict(k.get('headers') or {}),
                             namespaces=k.get('namespaces'),
                             transports=k.get('transports'))
+                maybe_shutdown_in_attempt(self)
                 try:
                     r = await super().connect(*a, **k)
                     rec.add('connect_exit', enter=e['seq'], ok=True)
@@ -119,6 +137,7 @@ def _run(case, cfg, w):
                             headers=dict(k.get('headers') or {}),
                             namespaces=k.get('namespaces'),
                             transports=k.get('transports'))
+                maybe_shutdown_in_attempt(self)
                 try:
                     r = super().connect(*a, **k)
                     rec.add('connect_exit', enter=e['seq'], ok=True)
@@ -207,6 +226,9 @@ def _run(case, cfg, w):
     total = 400.0
     step = 0.05
     shutdown_at = cfg['shutdown_at'] if expect_reconnect else None
+    if shutdown_at is not None and cfg.get('shutdown_phase') == 'attempt':
+        shut['armed'] = True      # fires from inside connect()
+        shutdown_at = None
     t_end = w.now() + total
     last_exit_seen = 0
     while w.now() < t_end:
@@ -236,7 +258,9 @@ def _run(case, cfg, w):
                     w.call(c.shutdown)
                     rec.count('fault.shutdown_in_backoff')
         if cfg['second_loss'] and not did_second and c.connected and \
-                len(exits) >= 2 and exits[-1]['ok'] and did_shutdown is None:
+                len(exits) >= 2 and exits[-1]['ok'] and \
+                did_shutdown is None and shut['at'] is None and \
+                not shut['armed']:
             # a further loss right after the successful reconnection
             did_second = True
             live = [cn for cn in w.net.conns if not cn.severed]
@@ -248,6 +272,8 @@ def _run(case, cfg, w):
                 t_end = w.now() + total
                 step = 0.05
     w.settle()
+    if shut['at'] is not None:
+        did_shutdown = shut['at']
 
     # ------------------------------------------------------------ oracle
     enters = [e for e in rec.events if e['kind'] == 'connect_enter']
@@ -321,7 +347,12 @@ def _run(case, cfg, w):
                 v.add('too_many_attempts', '%d attempts, limit %d'
                       % (n, cfg['attempts']))
             if did_shutdown is not None and ei == len(efforts) - 1:
-                late = [e for e in eff if e['t'] > did_shutdown + 1e-9]
+                sseq = [e['seq'] for e in rec.events
+                        if e['kind'] == 'shutdown_called']
+                # attempts STARTED after shutdown() was called (the one that
+                # may have been in flight at that moment is not one of them)
+                late = [e for e in eff if sseq and e['seq'] > sseq[0]
+                        and e['t'] > did_shutdown + 1e-5]
                 if late:
                     v.add('attempt_after_shutdown', '%d attempts after '
                           'shutdown()' % len(late))
